@@ -32,7 +32,7 @@ pub open spec fn store_ok(s: Store<RE>) -> bool {
 
 // terms 2j and 2j+1 denote complementary languages
 pub open spec fn pair_ok(t: Seq<RegLan>, j: int) -> bool {
-    forall|w: Seq<u32>| #[trigger] lang(*t[2 * j + 1], w) == (word_ok(w) && !lang(*t[2 * j], w))
+    forall|w: Seq<u32>| #[trigger] lang_k(t[2 * j + 1].expr, w) == (word_ok(w) && !lang_k(t[2 * j].expr, w))
 }
 
 // manager invariant: id2re mirrors the store; terms come in pairs (x, complement x) with
